@@ -242,6 +242,13 @@ func hasCaseTwin(st reflect.Type, field reflect.StructField) bool {
 		if other.Name == field.Name {
 			continue
 		}
+		// only a member the body decoder can fill claims a key
+		if other.PkgPath != "" && !other.Anonymous {
+			continue
+		}
+		if jn, _ := head(other.Tag.Get(jsonTag), ","); jn == "-" {
+			continue
+		}
 		if on := jsonNameOf(other); on != name && strings.EqualFold(on, name) {
 			return true
 		}
